@@ -47,6 +47,10 @@ pub fn reply_with_file(path: &str, contents: &str) -> Vec<u8> {
     out
 }
 
+fn should_generate_label(error_expected: bool, dry_run: bool) -> bool {
+    !error_expected && !dry_run
+}
+
 fn case(cx: &mut CaseCtx, input: Input) -> CaseResult {
     let mut u = Unstructured::new(input.bytes());
     let dir = CaseDir::new(&cx.workdir, cx.shard, cx.case_no);
@@ -59,10 +63,13 @@ fn case(cx: &mut CaseCtx, input: Input) -> CaseResult {
     let allow = pick(&mut u, 4);
     let outdir = pick(&mut u, 2) == 1;
     let failing_gen = if ngen > 0 && pick(&mut u, 3) == 0 { Some(pick(&mut u, ngen)) } else { None };
-    let fail_mode = pick(&mut u, 2);
+    let fail_mode = pick(&mut u, 3);
+    // independently of the state: the first file named twice (DuplicateFile warning before parsing)
+    let also_duplicate = pick(&mut u, 4) == 0;
 
     // files
-    let mut args: Vec<std::ffi::OsString> = Vec::new();
+    // groups of arguments that must stay adjacent; shuffled at the end (option order is free)
+    let mut groups: Vec<Vec<std::ffi::OsString>> = Vec::new();
     let mut is_ref = Vec::new();
     let mut error_expected = false;
     let mut warning_expected = false;
@@ -116,31 +123,37 @@ fn case(cx: &mut CaseCtx, input: Input) -> CaseResult {
         let reference = i > 0 && pick(&mut u, 3) == 0;
         is_ref.push(reference);
         if reference {
-            args.push(os("-R"));
+            groups.push(vec![os("-R"), os(&format!("f{i}.slice"))]);
+        } else {
+            groups.push(vec![os(&format!("f{i}.slice"))]);
         }
-        args.push(os(&format!("f{i}.slice")));
+    }
+    if also_duplicate && state != "warn-duplicate-file" {
+        warning_expected = true;
+        groups.push(vec![os("./f0.slice")]);
     }
     match state {
         "warn-duplicate-file" => {
             warning_expected = true;
-            args.push(os("./f0.slice"));
+            groups.push(vec![os("./f0.slice")]);
         }
         "err-nonexistent-path" => {
             error_expected = true;
             if pick(&mut u, 2) == 0 {
-                args.push(os("-R"));
+                groups.push(vec![os("-R"), os("nope.slice")]);
+            } else {
+                groups.push(vec![os("nope.slice")]);
             }
-            args.push(os("nope.slice"));
         }
         "err-non-slice-path" => {
             error_expected = true;
             dir.write("notes.txt", b"module M\n");
-            args.push(os("notes.txt"));
+            groups.push(vec![os("notes.txt")]);
         }
         "err-directory-as-source" => {
             error_expected = true;
             let _ = std::fs::create_dir_all(dir.path.join("adir"));
-            args.push(os("adir"));
+            groups.push(vec![os("adir")]);
         }
         _ => {}
     }
@@ -148,50 +161,67 @@ fn case(cx: &mut CaseCtx, input: Input) -> CaseResult {
     let out_rel = if outdir { "out" } else { "." };
     if outdir {
         let _ = std::fs::create_dir_all(dir.path.join("out"));
-        args.push(os("-O"));
-        args.push(os("out"));
+        groups.push(if pick(&mut u, 2) == 0 { vec![os("-O"), os("out")] } else { vec![os("--output-dir=out")] });
     }
     let mut gens = Vec::new();
     for g in 0..ngen {
         let mut cfg = format!("reply_hex={}\n", to_hex(&reply_with_file(&format!("gen{g}.out"), "generated")));
         if failing_gen == Some(g) {
-            if fail_mode == 0 || json_mode {
+            if fail_mode == 2 {
+                // a complete, valid reply - and then the generator is killed
+                cfg.push_str(["signal=9\n", "signal=11\n", "signal=15\n"][pick(&mut u, 3)]);
+            } else if fail_mode == 0 || json_mode {
                 cfg.push_str("exit=3\n");
             } else {
                 cfg.push_str(&format!("stderr_hex={}\n", to_hex(b"generator says no\n")));
             }
         }
         let gp = dir.install_generator(&format!("gen{g}"), &cfg);
-        args.push(os(&format!("--generator=./gen{g}")));
+        groups.push(if pick(&mut u, 2) == 0 { vec![os(&format!("--generator=./gen{g}"))] } else { vec![os("-G"), os(&format!("./gen{g}"))] });
         gens.push(gp);
     }
     if dry_run {
-        args.push(os("--dry-run"));
+        groups.push(vec![os("--dry-run")]);
     }
     if json_mode {
-        args.push(os("--diagnostic-format"));
-        args.push(os(["json", "JSON", "Json"][pick(&mut u, 3)]));
+        groups.push(vec![os("--diagnostic-format"), os(["json", "JSON", "Json"][pick(&mut u, 3)])]);
     }
     match allow {
-        1 => {
-            args.push(os("-A"));
-            args.push(os("All"));
-        }
-        2 => {
-            args.push(os("--allow"));
-            args.push(os("Deprecated"));
-        }
+        1 => groups.push(vec![os("-A"), os("All")]),
+        2 => groups.push(vec![os("--allow"), os("Deprecated")]),
         3 => {
-            args.push(os("-A"));
-            args.push(os("BrokenDocLink"));
-            args.push(os("-A"));
-            args.push(os("DuplicateFile"));
+            groups.push(vec![os("-A"), os("BrokenDocLink")]);
+            groups.push(vec![os("-A"), os("DuplicateFile")]);
         }
         _ => {}
     }
-    // order of options and files on the command line is free: rotate
-    let rot = pick(&mut u, args.len().max(1));
-    let _ = rot; // (options with values must stay adjacent; keep the order as built)
+    // The order of options and files on the command line is free.  Half of the cases keep the
+    // order as built, the others shuffle the groups; the relative order of the input files and of
+    // the generators is kept (it is observable, and other properties' business).
+    let mut args: Vec<std::ffi::OsString> = Vec::new();
+    if pick(&mut u, 2) == 0 {
+        args = groups.into_iter().flatten().collect();
+    } else {
+        let is_ordered = |g: &Vec<std::ffi::OsString>| {
+            let t = g.last().map(|s| s.to_string_lossy().into_owned()).unwrap_or_default();
+            t.ends_with(".slice") || t.contains("gen") || t == "notes.txt" || t == "adir"
+        };
+        let (ordered, mut free): (Vec<_>, Vec<_>) = groups.into_iter().partition(is_ordered);
+        // insert every free group at a drawn position among the ordered ones
+        let mut seq: Vec<Vec<std::ffi::OsString>> = ordered;
+        while let Some(g) = free.pop() {
+            let at = pick(&mut u, seq.len() + 1);
+            seq.insert(at, g);
+        }
+        cx.label("shuffled-options");
+        if let (Some(d), Some(o)) = (
+            seq.iter().position(|g| g[0] == "--dry-run"),
+            seq.iter().position(|g| g[0] == "-O" || g[0].to_string_lossy().starts_with("--output-dir")),
+        ) {
+            cx.label(if d < o { "dry-run-before-output-dir" } else { "dry-run-after-output-dir" });
+        }
+        args = seq.into_iter().flatten().collect();
+    }
 
     cx.nontrivial = ngen > 0 && !(state.starts_with("clean") && !dry_run && failing_gen.is_none());
     cx.label(format!("state:{state}"));
@@ -201,6 +231,8 @@ fn case(cx: &mut CaseCtx, input: Input) -> CaseResult {
     cx.label_if(!error_expected && dry_run && ngen > 0, "dry-run-with-clean-program");
     cx.label_if(!error_expected && failing_gen.is_some() && !dry_run, "failing-generator-with-clean-program");
     cx.label_if(allow == 1 && warning_expected, "allow-all-with-warnings");
+    cx.label_if(also_duplicate && error_expected, "duplicate-file-warning-next-to-an-error");
+    cx.label_if(failing_gen.is_some() && fail_mode == 2 && should_generate_label(error_expected, dry_run), "generator-killed-after-complete-reply");
     cx.sample_with(|| json!({"argv": args.iter().map(|a| a.to_string_lossy().into_owned()).collect::<Vec<_>>(), "state": state, "victim_file": victim}));
 
     let r = proc::run_slicec(&dir.path, &args, &[], Duration::from_secs(30));
@@ -273,7 +305,7 @@ impl Check for C07 {
         "C07"
     }
     fn rule(&self) -> String {
-        "proptest choice sequences -> (program state out of 15: clean, warnings only by three different lints, exactly one error of each phase incl. three kinds of I/O error and a redefinition across files, placed in any one of 1..4 source / reference files) x 0..3 instrumented fake generators (one optionally failing by exit status or stderr) x --dry-run x human/json x -A lists x -O; run through the real binary; oracle: invocation log of each generator exists <=> no error and no --dry-run, output files appear only then (and not for the failing generator), exit status != 0 <=> an error diagnostic was emitted (JSON lines / 'error [' headers). Non-trivial = >= 1 generator and not the plain clean run".into()
+        "proptest choice sequences -> (program state out of 15: clean, warnings only by three different lints, exactly one error of each phase incl. three kinds of I/O error and a redefinition across files, placed in any one of 1..4 source / reference files) x 0..3 instrumented fake generators (one optionally failing by exit status, by stderr output, or by being killed by a signal after a complete valid reply) x --dry-run x human/json x -A lists x -O / --output-dir= x the first file optionally named twice (DuplicateFile warning next to any state) x option order (as built, or options inserted at drawn positions among the files and generators); run through the real binary; oracle: invocation log of each generator exists <=> no error and no --dry-run, output files appear only then (and not for the failing generator), exit status != 0 <=> an error diagnostic was emitted (JSON lines / 'error [' headers). Non-trivial = >= 1 generator and not the plain clean run".into()
     }
     fn assumptions(&self) -> Vec<String> {
         vec!["fake generators follow the documented protocol (read all of stdin, then reply)".into()]
@@ -286,6 +318,10 @@ impl Check for C07 {
             "dry-run-with-clean-program",
             "failing-generator-with-clean-program",
             "allow-all-with-warnings",
+            "duplicate-file-warning-next-to-an-error",
+            "generator-killed-after-complete-reply",
+            "dry-run-before-output-dir",
+            "dry-run-after-output-dir",
         ];
         v.extend([
             "state:clean",
@@ -309,6 +345,6 @@ impl Check for C07 {
         true
     }
     fn families(&self, tier: Tier) -> Vec<Family<'_>> {
-        vec![Family::bytes("runs", 48, tier.pick(250, 5_000), case)]
+        vec![Family::bytes("runs", 72, tier.pick(300, 5_000), case)]
     }
 }
